@@ -87,7 +87,8 @@ def install(R: Registry):
                ensures=[
                    ("C11", "layout_ok(s)", "each field starts at a multiple of its natural alignment, fields are contiguous, the size is a multiple of every member alignment: no hidden padding"),
                    ("C11", "s.alignment == 1 or s.alignment == 2 or s.alignment == 4 or s.alignment == 8"),
-                   ("C11", "forall('j:Int', implies(0 <= j and j < len(s.fields), s.fields[j].galign <= 8 and implies(s.fields[j].galign > s.alignment, False) or True))"),
+                   ("C11", "forall('j:Int', implies(0 <= j and j < len(s.fields), s.fields[j].galign <= s.alignment))", "the struct's own alignment requirement is at least that of every member ..."),
+                   ("C11", "exists('j:Int', 0 <= j and j < len(s.fields) and s.fields[j].galign == s.alignment)", "... and no stricter than its strictest member: a parent never pads for it more than C would"),
                    ("C11", "forall('i:Int', implies(0 <= i and i < len(old(s.fields)), 0 <= gdst[i] and gdst[i] < len(s.fields) and s.fields[gdst[i]] == old(s.fields)[i]))",
                     "no user field is dropped: user field i sits at position gdst[i]"),
                    ("C11", "forall('i:Int k:Int', implies(0 <= i and i < k and k < len(old(s.fields)), gdst[i] < gdst[k]))", "user fields are never reordered"),
@@ -174,4 +175,21 @@ def install3(R: Registry):
                        "RTMASyntaxError": [("C12", "msg_id < 0 or msg_id > 10000")], "InvalidTypeError": [("C12", "False")]})
 
 
-PARSER_C12 = [P + "Parser.handle_host_id", P + "Parser.handle_module_id", P + "Parser.validate_msg_id"]
+def install4(R: Registry):
+    """C12: check_duplicate_name over the five shared namespaces (constants, string constants, aliases, structs, messages)"""
+    from pyvc.core import parse_type
+    FIVE = ("constants", "string_constants", "aliases", "struct_defs", "message_defs")
+    R.declare_class("Named", external=True, fields=dict(name="Str", src="PathObj"))
+    pc = R.classes["Parser"]
+    for f in FIVE:
+        pc.fields[f] = parse_type("Dict[Str, Named]")
+    nonnull = " and ".join(f"forall('k:Str', implies(dom(self.{f})[k], self.{f}[k] != null))" for f in FIVE)
+    clash = " or ".join(f"exists('k:Str', dom(self.{f})[k] and self.{f}[k].name == name)" for f in FIVE)
+    R.contract(P + "Parser.check_duplicate_name#five", tags="C12", params=dict(section="Str", name="Str"), const_params=dict(namespaces=FIVE),
+               requires=[nonnull, "self.current_file != null"], modifies=[],
+               ensures=[("C12", f"not ({clash})", "a definition name is accepted only if no constant, string constant, alias, struct or message of the whole import closure already has it - "
+                                                   "whatever section it is being added to")],
+               raises={"DuplicateNameError": [("C12", clash, "a name conflict is reported only when there is one")]})
+
+
+PARSER_C12 = [P + "Parser.check_duplicate_name#five", P + "Parser.handle_host_id", P + "Parser.handle_module_id", P + "Parser.validate_msg_id"]
